@@ -10,7 +10,9 @@ def handlers : List (List String → Option String) := [
   handleEnc,
   CtxDb.handleDb,
   handleInput,
-  Split.handleSplit
+  Split.handleSplit,
+  Doc.handleDoc,
+  Legacy.handleLeg
 ]
 
 def handle (fields : List String) : String :=
